@@ -47,6 +47,8 @@ Proof. exact version_gating_lemma. Qed.
    write-fonts/generated describe one schema — all pairs, the exceptions enumerated by name *)
 Theorem c04_all_pairs_compat : forallb compat_pair all_pairs = true.
 Proof. exact all_pairs_compat_lemma. Qed.
+Theorem c04_no_narrowing_casts : narrowing_casts = [].
+Proof. exact no_narrowing_casts_lemma. Qed.
 Theorem c04_enough_pairs : (150 <=? List.length all_pairs)%nat = true.
 Proof. exact enough_pairs_lemma. Qed.
 Theorem c04_compat_merged : forall R W, compat R W = true ->
@@ -61,5 +63,6 @@ Print Assumptions c04_reread_recompiles.
 Print Assumptions c04_normalize_idempotent.
 Print Assumptions c04_version_gating.
 Print Assumptions c04_all_pairs_compat.
+Print Assumptions c04_no_narrowing_casts.
 Print Assumptions c04_enough_pairs.
 Print Assumptions c04_compat_merged.
